@@ -561,7 +561,10 @@ def meta(tier):
                 'inside a state every x in V^n (small scope) is sent through the real proximal and '
                 'Phi(prox) is compared with Phi on the whole lattice G^n, on 3^n-1 directions x 4 '
                 'scales and on the segment to the best lattice point; firm non-expansiveness on '
-                'all pairs. distinct = (site, number of distinct sign patterns of prox(x)-x)',
+                'all pairs. History inside a state: step element unmodified, prox applied again, a '
+                'second operator from the same step object, and - after the data elements of the '
+                'functional were doubled in place - values unchanged => proximal unchanged. '
+                'distinct = (site, number of distinct sign patterns of prox(x)-x)',
         'bounds': {'V': FR.V5, 'lattice': '33^n (n<=2), 17^3, 9^4 on [-4,4]',
                    'scales': SCALES, 'sigma': [0.5, 2.0] if tier == 'quick' else
                    [0.5, 2.0, 1.0, 8.0]},
